@@ -545,10 +545,10 @@ CLIENT2(f_req_line,
        L("\x01\x01T / HTTP/1.1\r\nH: v\r\n\r\n")
 #endif
        )
-// request-target: authority and port of an absolute URI, CONNECT authority; thorough: bracketed IPv6, userinfo,
+// request-target: the whole host and the port of an absolute URI, CONNECT authority; thorough: bracketed IPv6, userinfo,
 // origin-form path with a Host field
 CLIENT(f_req_target,
-       L("GET http://\x01\x01.a/ HTTP/1.1\r\n\r\n"),
+       L("GET http://\x01\x01/ HTTP/1.1\r\n\r\n"),
        L("GET http://h.a:\x01\x01/ HTTP/1.1\r\n\r\n"),
        L("CONNECT \x01\x01:44\x01 HTTP/1.1\r\n\r\n")
 #ifdef VF_THOROUGH
@@ -560,10 +560,10 @@ CLIENT(f_req_target,
 // a short fully symbolic request-target on a forward-proxy port
 CLIENT_FWD(f_req_target_any,
        L(T("GET \x01\x01\x01 HTTP/1.1\r\n\r\n", "GET \x01\x01\x01\x01 HTTP/1.1\r\n\r\n")))
-// header block structure: colon, line ends, folding, terminator
+// header block structure: colon, a whole (possibly empty or blank) value and its line end, folding, terminator
 CLIENT(f_req_hdr,
        L("GET / HTTP/1.1\r\nHost\x01:v\r\nX: y\r\n\r\n"),
-       L("GET / HTTP/1.1\r\nA: b\x01\x01X: y\r\n\r\n"),
+       L("GET / HTTP/1.1\r\nA:\x01\x01X: y\r\n\r\n"),
        L("GET / HTTP/1.1\r\nA: b\r\n\x01\x01\r\nX: y\r\n\r\n"),
        L("GET / HTTP/1.1\r\nX: y\r\n\x01\x01\r\n"))
 // field values that HttpRequest::parseHeader() interprets: framing, Range, Cache-Control, Connection, Max-Forwards
@@ -626,7 +626,7 @@ SERVER2(f_rep_line,
 // header block structure
 SERVER(f_rep_hdr,
        L(RP "Host\x01:v\r\nX: y\r\n\r\n"),
-       L(RP "A: b\x01\x01X: y\r\n\r\n"),
+       L(RP "A:\x01\x01X: y\r\n\r\n"),
        L(RP "A: b\r\n\x01\x01\r\nX: y\r\n\r\n"),
        L("HTTP/1.1 200 OK\x01\nA: b\x01\x01\r\n\x01\n"))
 // field values that HttpReply::parseHeader() interprets
